@@ -22,7 +22,7 @@ public:
     i.rule = "plans: 1-4 fault-free transactions write -> read with the reader options that correspond to the writer options, read chunk size randomised; non-trivial = >=3 completed steps of which >=1 value comparison; distinct = distinct fingerprint of the executed op-kind/outcome sequence";
     i.simTime = "steps";
     i.faultKinds = {"read-chunking"};
-    i.probeNames = {"compared:table", "compared:dist", "compared:params", "compared:plist", "compared:optfile", "compared:resolve", "compared:resolve-dollar-shape", "compared:optchain", "compared:keyval", "compared:tokens",
+    i.probeNames = {"compared:table", "compared:dist", "compared:params", "compared:plist", "compared:optfile", "compared:resolve", "compared:resolve-dollar-shape", "compared:optchain", "compared:keyval", "compared:tokens", "compared:tokens-after-consuming", "compared:tokens-after-consuming-mixed-separators",
                     "written:table", "written:dist", "written:pfmt", "written:plist", "written:interval", "written:opt", "written:chain", "written:keyval"};
     i.assumptions = {"tables: 1..6 columns, at least two text lines, unique names, row names only together with column names, separator-free non-blank cells, single-character separator; reader called with the same separator, header = table has column names",
                      "row-names-from-column option: compared only for tables without row names whose chosen column holds unique values",
@@ -70,7 +70,7 @@ public:
         if (rk == "r.optfile" || rk == "r.optmap") { p.ops.push_back(Op("r.resolve", 0, 0)); if (rng.chance(0.3)) p.ops.push_back(Op("r.query", 0, rng.below(64), 0, rng.below(14))); }
         if (rk == "r.table" && rng.chance(0.2)) p.ops.push_back(Op("r.tedit", 0, rng.below(8), rng.below(8), rng.below(18 * 18 * 18)));
       }
-      if (rng.chance(0.25)) p.ops.push_back(Op("r.tok", docIdx, 2 | ((rng.below(5) == 0 ? 2 : rng.below(4)) << 3), chunkPick(rng, pChunk), static_cast<long>(kind)));
+      if (rng.chance(0.25)) p.ops.push_back(Op("r.tok", docIdx, 2 | 256 | (rng.below(11) << 9), chunkPick(rng, pChunk), static_cast<long>(kind) + 9 * rng.below(5)));
       if (rng.chance(0.15)) p.ops.push_back(Op("r.lines", docIdx, 1, chunkPick(rng, pChunk), static_cast<long>(kind)));
     }
     return p;
